@@ -170,7 +170,7 @@ def drive_arith(rec, quick):
     L = Lib.get()
     events = []
     # dot products: u (nrows groups) x v (nrows x ncols groups)
-    for nrows in range(0, 9 if quick else 17):
+    for nrows in list(range(0, 9 if quick else 34)) * (1 if quick else 3):
         for ncols, base in ((1, "reim4_vec_mat1col_product_"), (2, "reim4_vec_mat2cols_product_")):
             for variant in ("ref", "avx2"):
                 u = [grp(rng) for _ in range(nrows)]
@@ -189,8 +189,9 @@ def drive_arith(rec, quick):
                 events.append({"e": "Dot", "ncols": ncols, "u": u, "v": v, "r": [doubles_to_grp(R.f64[8 * c:8 * c + 8]) for c in range(ncols)],
                                "_what": "%s%s nrows=%d" % (base, variant, nrows)})
     # convolution window
-    for sa in range(0, 5):
-        for sb in range(0, 5):
+    wmax = 5 if quick else 9
+    for sa in range(0, wmax):
+        for sb in range(0, wmax):
             a = [grp(rng, 20) for _ in range(sa)]
             b = [grp(rng, 20) for _ in range(sb)]
             A, B = Buf(64 * sa), Buf(64 * sb)
@@ -210,22 +211,23 @@ def drive_arith(rec, quick):
                     continue
                 events.append({"e": "Conv", "k": k, "a": a, "b": b, "r": doubles_to_grp(R.f64), "_what": "convolution_1coeff k=%d sizes %d,%d" % (k, sa, sb)})
             # the range form and the two-coefficient form must agree with the one-coefficient form
-            size, off = sa + sb + 1, rng.randrange(0, 3)
-            R = Buf(64 * size, fill=0xEE)
-            L.fn("reim4_convolution_ref", "v puupupu")(R.addr, size, off, A.addr, sa, B.addr, sb)
-            R2 = Buf(128, fill=0xEE)
-            L.fn("reim4_convolution_2coeff_ref", "v uppupu")(off, R2.addr, A.addr, sa, B.addr, sb)
-            rec.case(("convrange", sa, sb, off))
-            if not (exact_small(R.f64) and exact_small(R2.f64) and R.canaries_ok() and R2.canaries_ok()):
-                rec.violation("reim4_convolution_ref / _2coeff_ref sizes %d,%d offset %d: write outside the output or non-integer / huge "
-                              "result on small integer data" % (sa, sb, off), {})
-                continue
-            for t in range(size):
-                events.append({"e": "Conv", "k": t + off, "a": a, "b": b, "r": doubles_to_grp(R.f64[8 * t:8 * t + 8]),
-                               "_what": "convolution_ref offset %d coefficient %d sizes %d,%d" % (off, t, sa, sb)})
-            for t in range(2):
-                events.append({"e": "Conv", "k": t + off, "a": a, "b": b, "r": doubles_to_grp(R2.f64[8 * t:8 * t + 8]),
-                               "_what": "convolution_2coeff k=%d sizes %d,%d" % (off + t, sa, sb)})
+            for size, off in ([(sa + sb + 1, rng.randrange(0, 3))] if quick else
+                            [(sz, of) for sz in (0, 1, sa + sb, sa + sb + 2) for of in range(0, sa + sb + 2)]):
+                R = Buf(64 * size, fill=0xEE)
+                L.fn("reim4_convolution_ref", "v puupupu")(R.addr, size, off, A.addr, sa, B.addr, sb)
+                R2 = Buf(128, fill=0xEE)
+                L.fn("reim4_convolution_2coeff_ref", "v uppupu")(off, R2.addr, A.addr, sa, B.addr, sb)
+                rec.case(("convrange", sa, sb, off))
+                if not (exact_small(R.f64) and exact_small(R2.f64) and R.canaries_ok() and R2.canaries_ok()):
+                    rec.violation("reim4_convolution_ref / _2coeff_ref sizes %d,%d offset %d: write outside the output or non-integer / huge "
+                                  "result on small integer data" % (sa, sb, off), {})
+                    continue
+                for t in range(size):
+                    events.append({"e": "Conv", "k": t + off, "a": a, "b": b, "r": doubles_to_grp(R.f64[8 * t:8 * t + 8]),
+                                   "_what": "convolution_ref offset %d coefficient %d sizes %d,%d" % (off, t, sa, sb)})
+                for t in range(2):
+                    events.append({"e": "Conv", "k": t + off, "a": a, "b": b, "r": doubles_to_grp(R2.f64[8 * t:8 * t + 8]),
+                                   "_what": "convolution_2coeff k=%d sizes %d,%d" % (off + t, sa, sb)})
     rec.data["events"] = events
 
 
@@ -289,13 +291,13 @@ def run(chk, replay=None):
     Lib.get()
     chk.assumptions += ["integer-valued data make every floating-point operation of the arithmetic kernels exact",
                         "'a few units of rounding' is taken as 4 ulp of the sum of the magnitudes of the terms"]
-    r = run_tlc("Reim4", "Reim4.cfg", workers=1, name="c17-reim4")
+    r = run_tlc("Reim4", "Reim4.cfg" if quick else "Reim4_thorough.cfg", workers=1, name="c17-reim4", timeout=1800)
     tlc_must_pass(r, "Reim4 definitions")
-    chk.add_tlc(r, "layout maps vs definitions, round trips, convolution window (ASSUMEs, m in {4,8,16})")
+    chk.add_tlc(r, "layout maps vs definitions, round trips, convolution window (ASSUMEs, m in %s)" % ("{4,8,16}" if quick else "{4..256}"))
     r = run_tlc("Pointwise", ("Pointwise_quick.cfg" if quick else "Pointwise_thorough.cfg"), workers=8, coverage=True, name="c17-pw")
     tlc_must_pass(r, "Pointwise")
     chk.add_tlc(r, "pointwise kernels = definition")
-    r = run_tlc("Reim4Gen", "Reim4Gen.cfg", workers=1, name="c17-gen")
+    r = run_tlc("Reim4Gen", "Reim4Gen.cfg" if quick else "Reim4Gen_thorough.cfg", workers=1, name="c17-gen", timeout=1800)
     tlc_must_pass(r, "Reim4 gen")
     cases = printed_json(r, "CASE")
     d = isolated(chk, "replay of the reim4 address maps", drive_a, (cases,), timeout=600)
@@ -307,8 +309,8 @@ def run(chk, replay=None):
     res = isolated_many(chk, jobs, timeout=1800, nproc=5)
     lay = [ev for d in res[:4] if d for ev in d["events"]]
     ari = [ev for ev in (res[4]["events"] if res[4] else [])]
-    r2 = isolated_many(chk, [("pointwise kernels, integer data part %d" % i, c13.drive_pw_b, (i, 100 if quick else 800)) for i in range(2)] +
-                       [("pointwise kernels, rounding on general data", drive_rounding, (150 if quick else 1500,))], timeout=900, nproc=3)
+    r2 = isolated_many(chk, [("pointwise kernels, integer data part %d" % i, c13.drive_pw_b, (i, 100 if quick else 4000)) for i in range(2)] +
+                       [("pointwise kernels, rounding on general data", drive_rounding, (150 if quick else 8000,))], timeout=900, nproc=3)
     ari += [ev for d in r2[:2] if d for ev in d["events"]]
     chk.cov["rounding_cases_within_tolerance"] = r2[2]["ok"] if r2[2] else 0
     for name, spec, evs in (("layout", "Reim4Trace", lay), ("arith", "PointwiseTrace", ari)):
